@@ -33,7 +33,7 @@ RULE = ("cases = (operator, operand values, producer forms); operands drawn per 
 ASSUMPTIONS = ["CPython int/Fraction arithmetic is exact; int/int true division and float(int) are correctly rounded",
                "CPython float + - * / are IEEE-754 binary64 operations",
                "zero divisors: exact levels must raise for % // %%; float/complex levels may raise or return the IEEE value",
-               "round at exact ties: either neighbour accepted (the statement fixes no tie rule)",
+               "round at exact ties: either neighbour accepted (the statement fixes no tie rule), but floor/ceil/round/int of a dyadic rational and of the exactly equal float must agree (both computed by the interpreter)",
                "float ^ int, anything ^ non-int and complex / % // %% values depend on library algorithms: only level / coercion checked",
                "complex operands are taken from the operand echo (no constructor from parts exists)"]
 PLAN = {"quick": {"pairs": 60000, "cmeta": 18000, "unary": 60000, "vectors": 36000},
